@@ -17,7 +17,7 @@ klass('BaseKFACPreconditioner', {
     '_tdc': KRef('TorchDistributedCommunicator'),
     '_update_factors_in_hook': KBool,
     '_steps': KInt,
-    '_mini_steps': KDict(KStr, KInt),
+    '_mini_steps': KDict(KStr, KInt, default=0),
 })
 
 klass('LambdaParamScheduler', {
@@ -40,7 +40,10 @@ klass('WorkAssignment', {})
 module_global('kfac.tracing', '_func_traces', KDict(KStr, KList(KReal)))
 
 # library classes (opaque objects)
-klass('Module', {'training': KBool}, lib=True)
+klass('Module', {'training': KBool, 'fwd_hooks': KInt, 'bwd_hooks': KInt}, lib=True)
 klass('ProcessGroup', {}, lib=True)
 klass('Tensor', {}, lib=True)
 klass('Future', {}, lib=True)
+
+klass('TorchDistributedCommunicator', {})
+klass('KFACBaseLayer', {})
